@@ -21,25 +21,33 @@ def model_check(rep, quick):
     rep.add_tlc("MC_Pipeline(round)", g)
     if g.violated != "ZonedDifference":
         raise ToolError("the round schedule no longer violates ZonedDifference in the model (got %s): the model does not distinguish the schedules" % (g.violated or g.error))
-    return {"schedules_differ_on": len(differ), "round_schedule_counterexample": "TIME TIMEZONE to TIME TIMEZONE"}
+    out = {"schedules_differ_on": len(differ), "round_schedule_counterexample": "TIME TIMEZONE to TIME TIMEZONE"}
+    # the other configured languages have their own rule tables (fewer rules, other words, other pattern orders)
+    for lang in [l for l in render.languages() if l != "en"]:
+        r = tlc_must_pass("MC_Pipeline", "MC_Pipeline_tr" if quick else "MC_Pipeline_tr_thorough", workers=8, timeout=1500, env={"RULES": pipeline.write_rules(lang)})
+        rep.add_tlc("MC_Pipeline(restart, %s)" % lang, r)
+        out["schedules_differ_on_" + lang] = len(r.info)
+    return out
 
 
-def lines_pool(rep, rng, n):
+def lines_pool(rep, rng, n, lang="en"):
     from props import c01, c04, c05, c06, c09, c10, c11, c12, c13, c14
-    pool = list(c04.POOL) + c01.test_lines()
+    pool = (list(c04.POOL) + c01.test_lines()) if lang == "en" else []
     for m in (c05, c06, c09, c10, c11, c12, c13, c14):
-        its = [it["text"] for it in forms.collect(m, rep) if it.get("lang", "en") == "en" and it["cfg"]["dec"] == "," and it["cfg"]["tho"] == "." and not it.get("pre")]
+        its = [it["text"] for it in forms.collect(m, rep) if it.get("lang", "en") == lang and it["cfg"]["dec"] == "," and it["cfg"]["tho"] == "." and not it.get("pre")]
         pool += its if len(its) <= n else rng.sample(its, n)
     return [t for t in dict.fromkeys(pool) if "\n" not in t and "=" not in t and len(t) <= 200]
 
 
-def conformance(rep, quick):
+def conformance(rep, quick, lang="en"):
     rng = random.Random(rep.seed * 1117 + 101)
-    texts = lines_pool(rep, rng, 80 if quick else 1500)
+    texts = lines_pool(rep, rng, 80 if quick else 1500, lang)
+    if not texts:
+        return {"lines_validated": 0}
     cfg = render.cfg_with()
-    cases = [{"id": "pl%d" % i, "cfg": cfg, "want": ["rules"], "steps": [{"op": "execute", "lang": "en", "text": t} for t in texts[i:i + 40]]} for i in range(0, len(texts), 40)]
-    obs = run_harness_stable_day(cases, "pipeline", jobs=8)
-    path = os.path.join(OUT, "run", "pipeline.trace.ndjson")
+    cases = [{"id": "pl%d" % i, "cfg": cfg, "want": ["rules"], "steps": [{"op": "execute", "lang": lang, "text": t} for t in texts[i:i + 40]]} for i in range(0, len(texts), 40)]
+    obs = run_harness_stable_day(cases, "pipeline." + lang, jobs=8)
+    path = os.path.join(OUT, "run", "pipeline.%s.trace.ndjson" % lang)
     index = []
     rewrites = refusals = 0
     with open(path, "w", encoding="utf-8") as f:
@@ -60,8 +68,8 @@ def conformance(rep, quick):
                         refusals += e["e"] == "refuse"
     if not index:
         raise ToolError("the rule-engine hook recorded nothing: is the harness built with --cfg smartcalc_verif?")
-    r = tlc("PipelineTrace", "PipelineTrace", workers=1, timeout=1800, env={"RULES": pipeline.write_rules("en"), "TRACE": path}, heap="4g")
-    rep.add_tlc("PipelineTrace", r)
+    r = tlc("PipelineTrace", "PipelineTrace", workers=1, timeout=1800, env={"RULES": pipeline.write_rules(lang), "TRACE": path}, heap="4g")
+    rep.add_tlc("PipelineTrace(%s)" % lang, r)
     if r.error or r.violated:
         raise ToolError("PipelineTrace did not consume the recorded log: %s" % (r.violated or r.error))
     bad = [{"line": index[b["l"] - 1], "at": b["at"], "what": b["what"]} for b in r.bad]
@@ -73,5 +81,7 @@ def conformance(rep, quick):
 def run(rep, quick):
     out = model_check(rep, quick)
     out.update(conformance(rep, quick))
+    for lang in [l for l in render.languages() if l != "en"]:
+        out[lang] = conformance(rep, quick, lang)
     rep.extra["pipeline"] = out
     return out
